@@ -164,7 +164,11 @@ class MappingIsoparametric(Mapping):
             X = np.clip(X + dX, 0., 1.)
             # the largest update of any coordinate of any point; a sum over
             # the points would grow with their number (rounding errors)
-            if (np.abs(dX).max(axis=(0, 2)) < newton_tol).all():
+            # and the update cannot become smaller than the rounding error
+            # of the residual x - F, about eps * |x|, amplified by invDF
+            floor = (64. * np.finfo(float).eps * np.abs(x).max()
+                     * np.abs(invDF).max(axis=(0, 1, 3)))
+            if (np.abs(dX).max(axis=(0, 2)) < newton_tol + floor).all():
                 return X
         raise Exception(("Newton iteration didn't converge "
                          "up to TOL={}".format(newton_tol)))
